@@ -544,3 +544,49 @@ def inverse_measure_cases(ts_list, pickups, starts, durs, nrows, kinds=("both", 
                             for m in (mults if kind != "beat" else (1,)):
                                 yield dict(kind=kind, ts=[nb, bt], src=src, pickup=fstr(P), voice=vm, divs=base * m,
                                            rows=[[fstr(s - P), fstr(d), p] for (s, d), p in zip(combo, pt)])
+
+
+# ---------------------------------------------------------------------------------------------
+# inverse direction: note arrays whose ts_beats / ts_beat_type columns change along the array
+
+INVTS_TS = [[2, 4], [3, 4], [6, 8], [2, 2]]
+INVTS_MEASURES = [1, 2]
+# what a stretch (the measures under one time signature) contains:
+#   beats: a note on every beat; first: one note of a beat at its start; bar: one note from its start to its end
+#   (tied over its barlines when rebuilt); cross: a note of a beat at its start and a note of two beats on its last
+#   beat, which sounds on into the next stretch (or past the last barline)
+INVTS_PATTERNS = ["beats", "first", "bar", "cross"]
+INVTS_DIVS = 4
+
+
+def inverse_ts_sequences():
+    """every sequence of 2 or 3 time signatures of INVTS_TS in which neighbours differ (a signature may come back
+    after another one: A B A)"""
+    from itertools import product
+
+    for n in (2, 3):
+        for seq in product(INVTS_TS, repeat=n):
+            if all(seq[i] != seq[i + 1] for i in range(n - 1)):
+                yield [list(x) for x in seq]
+
+
+def inverse_ts_cases(mixed):
+    """mixed=False: the same pattern in every stretch; mixed=True: every other assignment of patterns to stretches.
+    Preconditions (generator side): every stretch starts with a note (the array states a signature at the onsets of
+    its rows only), lasts a whole number of measures, the pickup measure (one beat, with one note) starts at division
+    0; beat-only arrays: every beat is a quarter (documented); division-only arrays: no pickup."""
+    from itertools import product
+
+    for seq in inverse_ts_sequences():
+        n = len(seq)
+        for ms in product(INVTS_MEASURES, repeat=n):
+            for pats in product(INVTS_PATTERNS, repeat=n):
+                if (len(set(pats)) > 1) != mixed:
+                    continue
+                st = [[nb, bt, m, p] for (nb, bt), m, p in zip(seq, ms, pats)]
+                for pickup in (0, 1):
+                    for kind in ("both", "beat", "div"):
+                        if (kind == "beat" and any(bt != 4 for _nb, bt in seq)) or (kind == "div" and pickup):
+                            continue
+                        for vm in (1, 0):
+                            yield dict(seq=st, pickup=pickup, kind=kind, voice=vm, divs=INVTS_DIVS)
